@@ -15,6 +15,7 @@ import (
 	storetypes "cosmossdk.io/store/types"
 	"github.com/cosmos/cosmos-sdk/codec"
 	sdk "github.com/cosmos/cosmos-sdk/types"
+	banktypes "github.com/cosmos/cosmos-sdk/x/bank/types"
 	"github.com/cosmos/gogoproto/proto"
 
 	coinswaptypes "mods.irisnet.org/modules/coinswap/types"
@@ -120,6 +121,81 @@ func genHistory(r *lib.Rand, tier, mode string) History {
 		// also let the BLOCK-time age of the feed value cross five minutes somewhere after the value exists
 		h.BigDtAt = 2 + r.Intn(3)
 	}
+	return h
+}
+
+// genServiceStress: the service-stress family.  What it adds to the general histories:
+//   - MUTATE-THEN-REJECT messages: MsgUpdateServiceBinding raising the price without raising the
+//     deposit — UpdateServiceBinding stores the new pricing BEFORE the minimum-deposit check rejects the
+//     message — followed (in the same block or, across a block boundary where replica B restarts, in the
+//     next one) by calls to that provider whose fee depends on the pricing;
+//   - an UNDER-FUNDED consumer (actor 5, left with about 2.5 prices) issuing 3..5 calls in one block, some
+//     of them repeated with the same frequency, so that several request batches of one consumer fall due
+//     in the same end-blocker and only some can be paid (the others are paused);
+//   - pause / start / kill of request contexts in the block their batch is due; top-ups and restarts.
+//
+// Observed as everywhere: service store digest (contexts, requests, fees), balances of all actors.
+func genServiceStress(r *lib.Rand, tier, mode string) History {
+	h := History{Mode: mode, Dt: 5, BigDtAt: -1}
+	add := func(s ...Step) { h.Steps = append(h.Steps, s...) }
+	blk := Step{Op: "block"}
+	extra := func(n int) {
+		for k := 0; k < n; k++ {
+			add(randomOp(r))
+		}
+	}
+	// a little of the other modules (the non-triviality rule wants >= 5 modules)
+	add(Step{Op: "token.issue", A: r.Intn(nActors), B: 0, N: uint64(1 + r.Intn(1000))},
+		Step{Op: "nft.issue", A: r.Intn(nActors), B: 0}, Step{Op: "mt.issue", A: r.Intn(nActors)},
+		Step{Op: "record.create", A: r.Intn(nActors), N: uint64(r.Intn(9))},
+		Step{Op: "coinswap.add", A: r.Intn(nActors), B: 0, N: uint64(100000 + r.Intn(100000))},
+		Step{Op: "random.request", A: r.Intn(nActors), N: uint64(1 + r.Intn(4))})
+	p3, p4 := uint64(5+r.Intn(11)), uint64(5+r.Intn(11))
+	add(Step{Op: "service.define", A: 2, B: 1},
+		Step{Op: "service.bind", A: 3, B: 1, C: 0, N: p3}, Step{Op: "service.bind", A: 4, B: 1, C: 0, N: p4})
+	// consumer 5 keeps about 2.5 prices
+	add(Step{Op: "bank.leave", A: 5, B: 0, N: 2*p3 + uint64(r.Intn(int(p3)+1))})
+	add(blk)
+	rounds := 3 + r.Intn(3)
+	for k := 0; k < rounds; k++ {
+		prov := 3 + r.Intn(2)
+		switch r.Weighted(4, 1, 1) {
+		case 0: // price raise without deposit: stored, then rejected by the minimum-deposit check
+			add(Step{Op: "service.update", A: prov, B: 1, C: 0, N: uint64(200 + r.Intn(700))})
+		case 1: // price raise with a sufficient additional deposit: accepted
+			add(Step{Op: "service.update", A: prov, B: 1, C: 1, N: uint64(10 + r.Intn(30))})
+		default: // lower price: accepted
+			add(Step{Op: "service.update", A: prov, B: 1, C: 0, N: uint64(1 + r.Intn(9))})
+		}
+		if r.Chance(1, 2) {
+			add(blk) // the restart of replica B falls between the update and the calls
+		}
+		// the rich consumer calls the provider whose pricing was just touched
+		add(Step{Op: "service.call2", A: 2, B: 1, C: prov - 3, N: uint64(r.Intn(2))})
+		// the poor consumer issues several calls in this block
+		nc := 3 + r.Intn(3)
+		rep := uint64(r.Intn(2)) // all repeated with one frequency, or none
+		for c := 0; c < nc; c++ {
+			add(Step{Op: "service.call2", A: 5, B: 1, C: r.Intn(3), N: rep + 2*uint64(r.Intn(2))})
+		}
+		extra(r.Intn(3))
+		if r.Chance(1, 2) { // pause / kill / start in the block the batches are due
+			add(Step{Op: []string{"service.pause", "service.kill", "service.start"}[r.Intn(3)], B: r.Intn(30)})
+		}
+		add(blk)
+		add(Step{Op: "service.respond", A: 3, B: r.Intn(4), N: uint64(1 + r.Intn(900))},
+			Step{Op: "service.respond", A: 4, B: r.Intn(4), N: uint64(1 + r.Intn(900))})
+		if r.Chance(1, 2) { // top up the poor consumer a little and restart something that was paused
+			add(Step{Op: "bank.send", A: 0, B: 5, N: p3 + uint64(r.Intn(int(2*p3)))})
+			add(Step{Op: "service.start", B: r.Intn(30)}, Step{Op: "service.start", B: r.Intn(30)})
+		}
+		extra(r.Intn(2))
+		add(blk)
+	}
+	// repeated contexts started together fall due together again
+	add(Step{Op: "blocks", N: uint64(8 + r.Intn(12))})
+	add(Step{Op: "service.call2", A: 2, B: 1, C: 2, N: 0}, Step{Op: "service.withdraw", A: 3})
+	add(blk)
 	return h
 }
 
@@ -347,11 +423,17 @@ type runState struct {
 	out      *replicaOut
 	cur, lab []string
 	htlcs    []htlcRef
+	ctxs     []ctxRef // request contexts created by successful service.call / call2 of this replica
 	nBlocks  int
 	h        History
 	txSeq    uint64
 	// symbol -> current owner (bech32), maintained from the successful messages of this replica
 	tokenOwner map[string]string
+}
+
+type ctxRef struct {
+	id       string
+	consumer string
 }
 
 type htlcRef struct {
@@ -493,6 +575,9 @@ func (rs *runState) exec(st Step) {
 		}
 		if m, ok := msg.(*tokenv1.MsgTransferTokenOwner); ok {
 			rs.tokenOwner[m.Symbol] = m.DstOwner
+		}
+		if r, ok := o.Resp.(*servicetypes.MsgCallServiceResponse); ok {
+			rs.ctxs = append(rs.ctxs, ctxRef{id: r.RequestContextId, consumer: msg.(*servicetypes.MsgCallService).Consumer})
 		}
 		if r, ok := o.Resp.(*htlctypes.MsgCreateHTLCResponse); ok {
 			rs.htlcs = append(rs.htlcs, htlcRef{id: r.Id, secret: secretOf(st), to: st.B})
@@ -704,6 +789,38 @@ func (rs *runState) build(st Step) (sdk.Msg, string) {
 		rq := reqs[st.B%len(reqs)]
 		output := fmt.Sprintf(`{"header":{},"body":{"rate":"%d.%03d"}}`, st.N/1000, st.N%1000)
 		return &servicetypes.MsgRespondService{RequestId: rq.Id, Provider: a, Result: `{"code":200,"message":""}`, Output: output}, "service"
+	case "service.call2":
+		provs := [][]string{{actor(e, 3)}, {actor(e, 4)}, {actor(e, 3), actor(e, 4)}}[st.C%3]
+		return &servicetypes.MsgCallService{ServiceName: svcName(st.B), Providers: provs, Consumer: a, Input: `{"header":{},"body":{}}`,
+			ServiceFeeCap: coins("stake", 100000), Timeout: 6, Repeated: st.N&1 == 1, RepeatedFrequency: 6 + (st.N>>1)%2*2, RepeatedTotal: 3}, "service"
+	case "service.update":
+		m := &servicetypes.MsgUpdateServiceBinding{ServiceName: svcName(st.B), Provider: a, Owner: a, Pricing: fmt.Sprintf(`{"price":"%dstake"}`, st.N)}
+		if st.C == 1 {
+			m.Deposit = coins("stake", st.N*1000)
+		}
+		return m, "service"
+	case "service.pause", "service.start", "service.kill":
+		if len(rs.ctxs) == 0 {
+			return nil, "service"
+		}
+		c := rs.ctxs[st.B%len(rs.ctxs)]
+		switch st.Op {
+		case "service.pause":
+			return &servicetypes.MsgPauseRequestContext{RequestContextId: c.id, Consumer: c.consumer}, "service"
+		case "service.start":
+			return &servicetypes.MsgStartRequestContext{RequestContextId: c.id, Consumer: c.consumer}, "service"
+		default:
+			return &servicetypes.MsgKillRequestContext{RequestContextId: c.id, Consumer: c.consumer}, "service"
+		}
+	// ---- bank (funding games of the service-stress family)
+	case "bank.leave":
+		bal := e.Balance(e.Actors[st.A%nActors], "stake")
+		if !bal.GT(sdkmath.NewIntFromUint64(st.N)) {
+			return nil, "bank"
+		}
+		return &banktypes.MsgSend{FromAddress: a, ToAddress: actor(e, st.B), Amount: sdk.NewCoins(sdk.NewCoin("stake", bal.Sub(sdkmath.NewIntFromUint64(st.N))))}, "bank"
+	case "bank.send":
+		return &banktypes.MsgSend{FromAddress: a, ToAddress: actor(e, st.B), Amount: coins("stake", st.N)}, "bank"
 	case "service.withdraw":
 		return &servicetypes.MsgWithdrawEarnedFees{Owner: a, Provider: a}, "service"
 	// ---- oracle
